@@ -17,6 +17,7 @@ var Alphabets = []string{
 	6: "a1 \t\n.,-+*/%&#\x00\x80\xc2\xa0\xe2\x80\xa8", // layout, odd bytes, multi-byte white space
 	8: "'\\t\na",                                      // two string literals with escapes on two lines
 	7: ";()[]|a1 ,'",                                  // statement splitting next to brackets
+	9: "'\\\xc3\xa9a`",                                // escapes in front of multi-byte characters
 }
 
 // GenBytes returns n arbitrary bytes over alphabet number alpha.
@@ -78,7 +79,114 @@ func CompareTokens(got []parser.Token, want []RTok, stop int) {
 
 // H_C09 checks the lexer against the token language on n arbitrary bytes.
 func H_C09(n, alpha int) {
-	src := GenBytes(n, alpha)
+	CheckLexer(GenBytes(n, alpha), alpha == 1)
+}
+
+// longFamilies frame few arbitrary bytes ('?', drawn from the family's alphabet) with a
+// run of one repeated character of arbitrary length: boundary numerics (16/17 hex
+// digits, 2^63, 2^64, leading zeros, long fractions and exponents), long strings,
+// names and comments with arbitrary bytes at either end.
+var longFamilies = []struct {
+	Pre   string
+	Mid   byte
+	Post  string
+	Alpha string
+	Split bool // case-split the arbitrary bytes to concrete values (64-bit decimal conversion stalls bit-blasting)
+}{
+	0:  {"0x?", '0', "?", "0178fFg", true},
+	1:  {"0x?", 'f', "?", "0178fFg", true},
+	2:  {"0x0", '0', "??", "018fx", true},
+	3:  {"?", '0', "?", "0129.e", true},
+	4:  {"1844674407370955161", '0', "??", "0156.", true},
+	5:  {"0.", '0', "?e?", "019-", true},
+	6:  {"?e", '9', "?", "019+-.", true},
+	7:  {"'?", 'a', "?'", "'\\a\xc3\xa9\n", false},
+	8:  {"`?", 'a', "?`", "`a\xc3\xa9\n'", false},
+	9:  {"?", 'a', "?", "a_$1 `", false},
+	10: {"//?", 'a', "?\n?", "a;/\n\r", false},
+	11: {"922337203685477580", '0', "??", "0789.", true},
+	12: {"?", '9', "?", "0189.e", true},
+	13: {"0X?", 'F', "?", "0178fFg", true},
+}
+
+// LongFamilies is the number of families of H_C09long.
+const LongFamilies = 14
+
+func longSource(f, n int) string {
+	fam := longFamilies[f]
+	holes := 0
+	for i := 0; i < len(fam.Pre); i++ {
+		if fam.Pre[i] == '?' {
+			holes++
+		}
+	}
+	for i := 0; i < len(fam.Post); i++ {
+		if fam.Post[i] == '?' {
+			holes++
+		}
+	}
+	hb := verif.BytesIn(holes, fam.Alpha)
+	if fam.Split {
+		hb = verif.ConcreteStr(hb)
+	}
+	h := 0
+	src := ""
+	for i := 0; i < len(fam.Pre); i++ {
+		if fam.Pre[i] == '?' {
+			src += hb[h : h+1]
+			h++
+		} else {
+			src += fam.Pre[i : i+1]
+		}
+	}
+	for i := 0; i < n; i++ {
+		src += string([]byte{fam.Mid})
+	}
+	for i := 0; i < len(fam.Post); i++ {
+		if fam.Post[i] == '?' {
+			src += hb[h : h+1]
+			h++
+		} else {
+			src += fam.Post[i : i+1]
+		}
+	}
+	return src
+}
+
+// H_C09long checks the lexer on family f with a run of every length up to nmax.
+func H_C09long(f, nmax int) {
+	n := verif.Concrete(verif.IntRange(0, nmax+1))
+	CheckLexer(longSource(f, n), true)
+	verif.Cover("long-checked")
+}
+
+// approxDecimal is the value of an integer spelling computed with a handful of
+// roundings (relative error far below 1e-14); ok=false for other spellings.
+func approxDecimal(sp string) (float64, bool) {
+	if len(sp) == 0 || len(sp) > 300 {
+		return 0, false
+	}
+	v := 0.0
+	for i := 0; i < len(sp); i += 15 {
+		j := i + 15
+		if j > len(sp) {
+			j = len(sp)
+		}
+		var chunk uint64
+		for k := i; k < j; k++ {
+			if !isDig(sp[k]) {
+				return 0, false
+			}
+			chunk = chunk*10 + uint64(sp[k]-'0')
+		}
+		v = v*pow10tab[j-i] + float64(chunk)
+	}
+	return v, true
+}
+
+// CheckLexer is the C09 check of one source; intFloat adds the Float64 accessor of
+// integer literals (one path per concrete spelling).
+func CheckLexer(src string, intFloat bool) {
 	got := parser.Scan(src)
 	verif.Obs("tokens", DumpTokens(got))
 
@@ -155,6 +263,16 @@ func H_C09(n, alpha int) {
 				v = 0
 			}
 			verif.Assert(lit.Uint64() == v, "Uint64 disagrees with the digits written in the source")
+			if !hex && intFloat {
+				// Float64 of an integer literal, to within a relative error of 1e-14
+				spc := verif.ConcreteStr(sp)
+				lit2 := &parser.BasicLit{ValueSpan: t.Span, Kind: t.Kind, Value: verif.ConcreteStr(t.Value)}
+				if approx, ok := approxDecimal(spc); ok {
+					f := lit2.Float64()
+					verif.Assert(f >= approx*(1-1e-14) && f <= approx*(1+1e-14), "Float64 of an integer literal is not its value")
+					verif.Cover("integer-float-checked")
+				}
+			}
 		} else {
 			// floating point is outside the solver's theories: the spelling is made concrete (one
 			// path per spelling within the bound) and the accessor's result compared with the
